@@ -26,12 +26,7 @@ def init (capacity : Nat) : Option Queue :=
 
 /-- `muggle_queue_free_node` -/
 def freeNode (s : Queue) (node : Ref) : Except Err Queue := do
-  let c ← s.mem.get node
-  let p ← deref c.prev
-  let m ← s.mem.setNext p c.next            -- node->prev->next = node->next
-  let c ← m.get node
-  let n ← deref c.next
-  let m ← m.setPrev n c.prev                -- node->next->prev = node->prev
+  let m ← s.mem.unlink node
   let m ← m.free node
   pure { mem := m, pool := s.pool.map Pool.free, size := (s.size + 2 ^ 64 - 1) % 2 ^ 64 }
 
@@ -70,13 +65,7 @@ def enqueue (s : Queue) (data : Val) : Except Err (Queue × Ref) := do
   let m ← m.setVal nw data
   let size := s.size + 1
   let node ← deref m.tail.prev
-  let c ← m.get node
-  let n ← deref c.next
-  let m ← m.setPrev n (some nw)             -- node->next->prev = new_node
-  let c ← m.get node
-  let m ← m.setNext nw c.next               -- new_node->next = node->next
-  let m ← m.setPrev nw (some node)          -- new_node->prev = node
-  let m ← m.setNext node (some nw)          -- node->next = new_node
+  let m ← m.linkAfter node nw
   pure ({ mem := m, pool := s.pool.map Pool.alloc, size := size }, nw)
 
 /-- `muggle_queue_dequeue` -/
@@ -100,7 +89,7 @@ def front (s : Queue) : Except Err (Option (Ref × Val)) :=
 def toList (s : Queue) : Except Err (List (Ref × Val)) := do
   let first ← deref s.mem.head.next
   let refs ← s.mem.walkFwd (s.mem.cells.length + 1) first
-  refs.mapM (fun r => do let c ← s.mem.get r; pure (r, c.val))
+  refs.mapM s.mem.readCell
 
 /-- backward traversal -/
 def toListRev (s : Queue) : Except Err (List Ref) := do
